@@ -12,6 +12,10 @@ def run(ctx):
             ("par", 250 if quick else 4000, 40, 31, []),
             ("all", 25 if quick else 600, 24, 32, [], "cli")]
     r = codec.run_art("C05", ctx, runs)
-    violations, known = codec.verdict("C05", r)
+    def search():
+        # other seeds, three times as many cases
+        ctx2 = dict(ctx); ctx2["seed"] = ctx["seed"] + 7919
+        return codec.run_art("C05", ctx2, [(m, c * 3, n, so, ex) + tuple(rest) for (m, c, n, so, ex, *rest) in runs if m not in ("data",)])
+    violations, known = codec.verdict("C05", r, search=search)
     r.update({"violations": violations, "known": known})
     return r
